@@ -179,10 +179,20 @@ def depth(x, p):
                 if not isinstance(t, (lexer.TokSpace, lexer.TokNewline))]
         alpha = ST.make_alphabet(trivia=False)
         sig = pre + ST.tokens(x, p['k'], alpha) + post
-    toks = []
-    for t in sig:
-        toks.append(t)
-        toks.append(lexer.TokNewline(b'\n'))
+    if p.get('layout') == 'lines':
+        # keep the program's own lines (needed for short ifs), drop blanks
+        # at the start of lines so that the input carries no indentation
+        toks = []
+        for t in lx.tokens:
+            if isinstance(t, lexer.TokSpace) and (
+                    not toks or isinstance(toks[-1], lexer.TokNewline)):
+                continue
+            toks.append(t)
+    else:
+        toks = []
+        for t in sig:
+            toks.append(t)
+            toks.append(lexer.TokNewline(b'\n'))
     vs = ST.views(toks)
     try:
         sk, depths = RP.parse(vs, want_depths=True)
@@ -207,7 +217,12 @@ def depth(x, p):
     x.tag('formatted')
     lines = out.split(b'\n')
     x.out('nlines', len(lines))
-    sig_idx = [i for i in range(0, len(toks), 2)]
+    if p.get('layout') == 'lines':
+        sig_idx = [i for i, t in enumerate(toks) if not isinstance(
+            t, (lexer.TokSpace, lexer.TokNewline, lexer.TokComment)) and (
+                i == 0 or isinstance(toks[i - 1], lexer.TokNewline))]
+    else:
+        sig_idx = [i for i in range(0, len(toks), 2)]
     x.check('one output line per token', len(lines) == len(sig_idx) + 1)
     if len(lines) != len(sig_idx) + 1:
         return
@@ -226,9 +241,14 @@ EVERY = ('do\nlocal x=1\nwhile x do\nx=f(a,{b,[c]=d},t[i])\nend\nrepeat\n'
          'end\nfor i=1,2 do\nbreak\nend\nfor k,v in pairs(t) do\ngoto l\n'
          'end\n::l::\nfunction m.n:o(p,...)\nreturn (p)\nend\nlocal function '
          'q()\nend\ny=function()\nend\nend\n')
+LINES = ('if (a) b=1 else b=2\ndo\nx=1\nif (c) d=1\ny=f(1,\n2)\nend\n'
+         'function f(a,\nb)\nif (c) d=1 else d=2\nif (e) return\n'
+         'for i=1,2 do\nif (g) h() else i()\nz=1\nend\nend\nw=0\n')
 HARNESSES.append(
     Harness('depth', depth,
             quick=[dict(Q, src=EVERY, width=2), dict(Q, src=EVERY, width=0),
+                   dict(Q, src=LINES, width=2, layout='lines'),
+                   dict(Q, src=LINES, width=1, layout='lines'),
                    dict(Q, pre='do ', post=' end', k=1, width=2),
                    dict(Q, pre='x=f(', post=')', k=1, width=3)],
             thorough=[dict(Q, src=EVERY, width=w) for w in range(0, 9)] +
